@@ -56,6 +56,7 @@ type spNode struct {
 	typ  reflect.Type // struct type of the node
 	opts []spOpt
 	idx  int
+	rep  bool // the node or one of its ancestors is an element of a repeated field
 }
 
 const (
@@ -154,10 +155,11 @@ func discoverNodes(root reflect.Value, skipTop map[string]bool) []*spNode {
 	type item struct {
 		v    reflect.Value
 		norm string
+		rep  bool
 	}
 	var nodes []*spNode
 	seen := map[string]bool{}
-	queue := []item{{root.Elem(), ""}}
+	queue := []item{{root.Elem(), "", false}}
 	for len(queue) > 0 {
 		it := queue[0]
 		queue = queue[1:]
@@ -166,7 +168,7 @@ func discoverNodes(root reflect.Value, skipTop map[string]bool) []*spNode {
 		}
 		seen[it.norm] = true
 		t := it.v.Type()
-		n := &spNode{norm: it.norm, typ: t}
+		n := &spNode{norm: it.norm, typ: t, rep: it.rep}
 		for i := 0; i < t.NumField(); i++ {
 			sf := t.Field(i)
 			if !exported(sf) {
@@ -197,7 +199,7 @@ func discoverNodes(root reflect.Value, skipTop map[string]bool) []*spNode {
 				continue
 			}
 			n.opts = append(n.opts, spOpt{name: sf.Name, typeField: tf, msg: true})
-			queue = append(queue, item{subs[0], join(it.norm, sf.Name)})
+			queue = append(queue, item{subs[0], join(it.norm, sf.Name), it.rep || fv.Kind() == reflect.Slice})
 		}
 		if len(n.opts) > 0 && len(n.opts) <= 30 {
 			n.idx = len(nodes)
@@ -271,6 +273,7 @@ func applyShape(v reflect.Value, norm string, sh spShape, byNorm map[string]*spN
 
 type spFail struct {
 	kind, cmd, top, detail string
+	codec                  string
 	shape                  spShape
 	ref                    caseRef
 }
@@ -340,27 +343,39 @@ func checkSparseDecode(ci *cmdInfo, cc *codecCase) {
 				if n.norm == "" && ctx != ctxDenseAll {
 					continue // the response itself: one instance, no ancestors
 				}
+				if ctx == ctxDenseFirst && !n.rep {
+					continue // a single instance: same as dense
+				}
 				shapes = append(shapes, spShape{node: n, ctx: ctx, absent: m, nAbs: popcount(m)})
 			}
 		}
 	}
 	sort.SliceStable(shapes, func(i, j int) bool { return shapes[i].less(shapes[j]) })
+	// EncodeRequest never changes the caller's request (checkEncode), DecodeResponse
+	// recycles the ENCODED one: encode afresh for every shape from one plain request
+	plainReq, _ := buildRequest(ci, false, false)
+	// Baseline: the fully populated response. What already fails there is a defect that
+	// does not depend on the shape and is reported by checkDecode under its own key;
+	// the sparse part reports only failures that the fully populated response does not show.
+	baseFail := map[string]bool{} // kind|path
+	baseline := true
+	shapes = append([]spShape{{node: nodes[0], ctx: ctxDenseAll}}, shapes...)
 	for _, sh := range shapes {
 		sh := sh
+		isBase := baseline
+		baseline = false
 		ref := caseRef{Kind: "decode-sparse", Cmd: ci.Name, Mode: cc.ModeName, ID: cc.ID,
 			Info: map[string]any{"node": sh.node.norm, "node_type": sh.node.typ.String(), "context": ctxNames[sh.ctx], "absent": sh.absentNames()}}
 		guard("decode-sparse:"+ci.Name, ref, func() {
-			enc, err := encodedFor(ci, cc)
+			nTransitions.Add(1)
+			enc, err := cc.Codec.EncodeRequest(plainReq)
 			if err != nil {
 				return // reported by checkEncode
 			}
 			msg := (&builder{sliceLen: 2, maxRec: 2}).newMsg(ci.RespT.Elem())
 			applyShape(msg.Elem(), "", sh, byNorm)
 			fl := flatten(msg)
-			want := map[string]string{}
-			for p, v := range fl.vals {
-				want[p] = v
-			}
+			want := fl.vals // logical markers: taken before the wire values are written into the message
 			present, absent := 0, 0
 			isKey := map[string]*leafInfo{}
 			for _, l := range fl.leaves {
@@ -378,7 +393,9 @@ func checkSparseDecode(ci *cmdInfo, cc *codecCase) {
 				present++
 				setBytes(l.Val, cc.wire(l.Class, l.Val.Bytes()))
 			}
-			if _, dup := stateSeen.LoadOrStore(fmt.Sprintf("sp/%s/%s/%s", ci.Name, cc.tag(), sh.id()), true); !dup {
+			if isBase {
+				// not counted: the same case as checkDecode's
+			} else if _, dup := stateSeen.LoadOrStore(fmt.Sprintf("sp/%s/%s/%s", ci.Name, cc.tag(), sh.id()), true); !dup {
 				nStates.Add(1)
 				spShapes.Add(1)
 				spByCtx[sh.ctx].Add(1)
@@ -390,22 +407,42 @@ func checkSparseDecode(ci *cmdInfo, cc *codecCase) {
 			nTransitions.Add(1)
 			nTraces.Add(1)
 			nEvals.Add(1)
+			if (err != nil || out == nil) && isBase {
+				baseFail["error"] = true // decode:error:<cmd> of checkDecode
+				return
+			}
 			if err != nil || out == nil {
-				spFailure(spFail{kind: "error", cmd: ci.Name, top: topOf(sh.node.norm), shape: sh, ref: ref,
+				if baseFail["error"] {
+					return
+				}
+				spFailure(spFail{kind: "error", cmd: ci.Name, top: topOf(sh.node.norm), codec: cc.tag(), shape: sh, ref: ref,
 					detail: fmt.Sprintf("DecodeResponse(%s) under %s, shape %s at %q: %v", ci.Name, cc.tag(), sh.sig(), sh.node.norm, err)})
 				return
 			}
 			got := flatten(reflect.ValueOf(out.Resp))
-			reported := map[string]bool{} // one failure per (kind, top) and shape
-			fail := func(kind, path, detail string) {
-				top := topOf(path)
-				if reported[kind+"|"+top] {
+			// one failure per (kind, top) and shape: the one with the smallest path
+			type rep struct{ path, detail string }
+			reported := map[string]*rep{}
+			fail := func(kind, path string, detail func() string) {
+				if isBase {
+					baseFail[kind+"|"+path] = true
 					return
 				}
-				reported[kind+"|"+top] = true
-				spFailure(spFail{kind: kind, cmd: ci.Name, top: top, shape: sh, ref: ref, detail: detail})
+				if baseFail[kind+"|"+path] {
+					return
+				}
+				k := kind + "|" + topOf(path)
+				if r := reported[k]; r == nil || path < r.path {
+					reported[k] = &rep{path, detail()}
+				}
 			}
-			for _, p := range fl.sortedPaths() {
+			defer func() {
+				for k, r := range reported {
+					kt := strings.SplitN(k, "|", 2)
+					spFailure(spFail{kind: kt[0], cmd: ci.Name, top: kt[1], codec: cc.tag(), shape: sh, ref: ref, detail: r.detail})
+				}
+			}()
+			for p := range fl.vals {
 				if !routable && strings.HasPrefix(p, "RegionError") {
 					continue
 				}
@@ -416,25 +453,29 @@ func checkSparseDecode(ci *cmdInfo, cc *codecCase) {
 					if w == "b:" {
 						spAbsent.Add(1)
 						if !ok || g != "b:" {
-							fail("absent-changed", p, fmt.Sprintf("%s.%s under %s, shape %s at %q: absent key field decoded to %x", ci.Name, p, cc.tag(), sh.sig(), sh.node.norm, strings.TrimPrefix(g, "b:")))
+							fail("absent-changed", p, func() string { return fmt.Sprintf("%s.%s under %s, shape %s at %q: absent key field decoded to %x", ci.Name, p, cc.tag(), sh.sig(), sh.node.norm, strings.TrimPrefix(g, "b:")) })
 						}
 						continue
 					}
 					spLeaves.Add(1)
 					if !ok || g != w {
-						fail("not-stripped", p, fmt.Sprintf("%s.%s under %s, shape %s at %q: wire %x decoded to %x, want %x", ci.Name, p, cc.tag(), sh.sig(), sh.node.norm,
-							cc.wire(l.Class, []byte(w[2:])), strings.TrimPrefix(g, "b:"), w[2:]))
+						fail("not-stripped", p, func() string { return fmt.Sprintf("%s.%s under %s, shape %s at %q: wire %x decoded to %x, want %x", ci.Name, p, cc.tag(), sh.sig(), sh.node.norm,
+							cc.wire(l.Class, []byte(w[2:])), strings.TrimPrefix(g, "b:"), w[2:]) })
 					}
 					continue
 				}
 				if !ok || g != w {
-					fail("value-changed", p, fmt.Sprintf("%s.%s under %s, shape %s at %q: %q -> %q", ci.Name, p, cc.tag(), sh.sig(), sh.node.norm, w, g))
+					fail("value-changed", p, func() string { return fmt.Sprintf("%s.%s under %s, shape %s at %q: %q -> %q", ci.Name, p, cc.tag(), sh.sig(), sh.node.norm, w, g) })
 				}
 			}
 			for p := range got.vals {
 				if _, ok := want[p]; !ok && !(!routable && strings.HasPrefix(p, "RegionError")) {
-					fail("value-changed", p, fmt.Sprintf("%s.%s under %s, shape %s at %q: appeared after decode (%q)", ci.Name, p, cc.tag(), sh.sig(), sh.node.norm, got.vals[p]))
+					p := p
+					fail("value-changed", p, func() string { return fmt.Sprintf("%s.%s under %s, shape %s at %q: appeared after decode (%q)", ci.Name, p, cc.tag(), sh.sig(), sh.node.norm, got.vals[p]) })
 				}
+			}
+			if isBase {
+				return
 			}
 			outcome("decode-sparse-ok")
 			samples.Add(func() any {
@@ -477,7 +518,8 @@ func finishSparseReport() {
 			continue
 		}
 		p.n++
-		if f.shape.less(p.f.shape) {
+		// simplest shape; ties (same shape under several codecs, workers run in parallel) by codec name
+		if f.shape.less(p.f.shape) || (!p.f.shape.less(f.shape) && f.codec < p.f.codec) {
 			p.f = f
 		}
 	}
